@@ -1016,6 +1016,7 @@ func (s *runsInnerStream[T]) Next(ctx context.Context) (T, error) {
 	} else if !s.parent.same(s.prev, item) {
 		return zero, End
 	}
+	s.prev = item
 	return s.parent.inner.Next(ctx)
 }
 
